@@ -121,3 +121,14 @@ package bundler
 // METAFILE path style (the keys of "inputs", the keys of outputs[*].inputs, entryPoint, imports[*].path all name the
 // same file by the same string); the log path style is another setting and may differ (AbsPaths).
 //@ flow metafile-paths-use-the-metafile-style C19: func=(*scanner).processScannedFiles ; in=bundler ; site=call QuoteForJSON ; when-arg=0:*PrettyPaths* ; argpath=0:*Select(*MetafilePathStyle)*
+
+// C16 / C17: ContainsInputFile is asked by every rebuild that finds paths written by an earlier build, whatever became
+// of the scan: a scan that was cancelled returns a Bundle made of its options only (no file system, no files). So the
+// function may use the bundle's file system only after it has seen that there is one.
+//@ guarded input-question-is-safe-for-a-cancelled-scan C16 C17: func=(*Bundle).ContainsInputFile ; in=bundler ; site=invoke Join ; scenario=cancelled_rebuild_after_write ; require-any=true:b.fs!=nil || false:b.fs==nil || false:b.scanWasCancelled
+
+// C20 ("every build terminates"): preprocessInjectedFiles waits for ONE answer on the inject channel of every injected
+// file. parseFile therefore answers on that channel on every path that ends the task, also when the load fails (an
+// onLoad error, an unreadable file): the failure report on the results channel is preceded by the answer on inject.
+// (The panic handler is not covered by this rule: see the withdrawn `paired` rule in DESIGN 9.4.)
+//@ guarded failed-load-still-answers-the-inject-waiter C20: func=parseFile ; in=bundler ; site=send args.results ; only-under=false:call runOnLoadPlugins(*)#1 ; scenario=inject_load_failure_hangs ; preceded-by-send=args.inject
